@@ -8,7 +8,7 @@ VARIABLE D
 Init == D \in [{"D", "g1", "g2"} -> SUBSET Tri]
 Next == UNCHANGED D
 Spec == Init /\ [][Next]_D
-c0 == [D |-> D, active |-> {}, ord |-> [x \in {} |-> 0], dev |-> FALSE, dev2 |-> FALSE, union |-> FALSE, dev3 |-> FALSE]
+c0 == [D |-> D, active |-> {}, ord |-> [x \in {} |-> 0], dev |-> FALSE, dev2 |-> FALSE, union |-> FALSE, dev3 |-> FALSE, init |-> EmptyMu]
 Op(u) == ApplyOp(D, u, c0)
 Inv_CopySelf == \A g \in {"DEFAULT", "g1"} : \A kk \in {"add", "move", "copy"} : Op([u |-> kk, from |-> g, to |-> g]) = D
 Inv_Move == LET R == Op([u |-> "move", from |-> "g1", to |-> "g2"]) IN R["g2"] = D["g1"] /\ R["g1"] = {} /\ R["D"] = D["D"]
